@@ -123,6 +123,16 @@ CHECKS["C14"] = dict(
     note="Trusted: TLC, the harness's failing writer / failing function. Programs of 3 (quick) and 5 (thorough) nodes.",
     technique="TLA+ model checking (TLC) with fault enumeration + exhaustive fault-injection replay", ref="DESIGN.md §3 C14")
 
+CHECKS["C07"] = dict(
+    text="PongoExpr.tla defines, for expression trees, the minimal-parenthesis token sequence (Tokens), the value under the documented "
+         "int/float/string/bool rules with rationals for floats (Eval), and its canonical printed form (Canon); a precedence-climbing "
+         "parser inside the specification shows Tokens is unambiguous (Reparse) and ShortCircuit is checked on every tree. TLC enumerates "
+         "all trees of the bounded families and the real engine must print the same canonical form for {{ e }} and take the same branch "
+         "for {% if e %} after the tokens are written with random spacing and operator spellings.",
+    note="Trusted: TLC, the harness's token joiner and six-decimal formatter. Restricted to the uncontroversial fragment the property names; "
+         "values beyond the 32-bit-safe range are pruned and counted.",
+    technique="TLA+ executable specification (printer + evaluator + reparse invariant) enumerated by TLC + exhaustive replay", ref="DESIGN.md §3 C07")
+
 PENDING = {}
 
 def main():
